@@ -112,13 +112,19 @@ def run(ctx, drv):
                                            # a box a hundred times narrower than the step size, and a step size twenty times the box:
                                            # every value of the very first generation needs hundreds of draws
                                            ([(0.0, 0.01), (0.0, 1.0)], rng.randrange(2 ** 31), None, 96), ([(0.0, 1.0), (0.0, 1.0)], rng.randrange(2 ** 31), 20.0, 60),
-                                           ([(5.0, 5.02)], rng.randrange(2 ** 31), None, 96)):
+                                           ([(5.0, 5.02)], rng.randrange(2 ** 31), None, 96),
+                                           # started from a corner of the box supplied by the user (initial_search_point)
+                                           ([(0.0, 1.0)] * 8, 1, "corner", 200), ([(-2.0, -1.0)] * 6, rng.randrange(2 ** 31), "corner", 200)):
         seen = []
         nv = len(widths)
         p = Problem(nv, 1, function=lambda x: (seen.append(list(x)) or [sum((v - 0.1) ** 2 for v in x)]))
         p.types[:] = [Real(lo, hi) for lo, hi in widths]
         _random.seed(seed_)
-        r = plat.call_guarded(lambda: A.CMAES(p, offspring_size=12, **({"sigma": sigma_} if sigma_ else {})).run(budget_), seconds=60)
+        if sigma_ == "corner":
+            kw_, off_ = {"initial_search_point": [lo for lo, hi in widths]}, 20
+        else:
+            kw_, off_ = ({"sigma": sigma_} if sigma_ else {}), 12
+        r = plat.call_guarded(lambda: A.CMAES(p, offspring_size=off_, **kw_).run(budget_), seconds=60)
         inp = {"algorithm": "CMAES", "declared": [list(w) for w in widths], "seed": seed_, "offspring_size": 12, "sigma": sigma_}
         if isinstance(r, str):
             ctx.fail("run-raises", inp, r, "a completed run", "algorithms.CMAES")
@@ -128,7 +134,7 @@ def run(ctx, drv):
             ctx.fail("invalid-argument-to-problem-function", dict(inp, argument=bad[0][0], variable=bad[0][1]), bad[0][0][bad[0][1]],
                      f"in {list(widths[bad[0][1]])}", "algorithms.CMAES.sample")
         ctx.case(("cmaes-narrow", nv, seed_), len(seen) >= 12)
-    ctx.count("cmaes_narrow_box_runs", 6)
+    ctx.count("cmaes_narrow_box_runs", 8)
     # ---- registry
     for tname, cls in (("Real", T.Real), ("Binary", T.Binary), ("Integer", T.Integer), ("Permutation", T.Permutation), ("Subset", T.Subset)):
         for what, getter in (("variator", PlatypusConfig.default_variator), ("mutator", PlatypusConfig.default_mutator)):
